@@ -50,6 +50,7 @@ def run(chk: Check, ctx: Any) -> None:
         "source map builder; (R5) position marks are built from the argument they describe. Not decided: which anchor token is right for "
         "synthetic ops beyond 'the handler's own context'."
     )
+    chk.rule("C08-R7", "compile() interpreted on a multi-file macro project: every op of an expansion has a macro entry naming the defining file (relative to the compiled file, null = same), the macro and the position of its statement there; exactly the first op of an expansion carries the call position; the return address lies after the expansion and not after the next op; files named = files that contributed ops; recorded marks = emitted marks")
     chk.rule("C08-R1", "each SsbOperation construction is registered under its number (add_opcode / add_macro_opcode / _register_operation), or reuses a registered offset")
     chk.rule("C08-R2", "positions passed to the source map are <ctx>.start.line - 1 and <ctx>.start.column of the handler's own context (stop.* for end positions)")
     chk.rule("C08-R3", "return address = op counter + #(non-label blueprint ops) + 1 (own and nested pushes), pushed before numbers are drawn; one number per non-label element; push/pop paired")
@@ -161,6 +162,9 @@ def run(chk: Check, ctx: Any) -> None:
         ok = bool(app) and src_vars == {app[0].args[0].id}  # type: ignore[union-attr]
         chk.decide("C08-R5", "arglist:same-arg", ok, al, f"the mark is built from {sorted(src_vars)} but the returned parameter is {norm(app[0].args[0]) if app else '?'}",
                    "mark built from the returned argument")
+    from .macros import macro_map_rule
+    macro_map_rule(chk, ctx, "C08-R7")
+
 
 
 def _positions(chk: Check, f: Func, call: ast.Call, own: set[str], line_i: int, col_i: int) -> None:
